@@ -343,4 +343,29 @@ void build_seed_r2(File &f) {
     c.createTag("t1", "t", {0.0}).addReference(ca);
 }
 
+void build_seed_r3(File &f) {
+    build_seed_r1(f);
+    Block b = f.getBlock("b1");
+    Block c = f.createBlock("b2", "u");
+    DataArray ca = c.createDataArray("a1", "t", DataType::Double, NDSize({2}));
+    c.createSource("s1", "t");
+    c.createTag("t1", "t", {0.0}).addReference(ca);
+    Tag t1 = b.getTag("t1");
+    t1.addReference(b.getDataArray("a2"));
+    t1.createFeature(b.getDataArray("a3"), LinkType::Indexed);
+    DataArray a1 = b.getDataArray("a1");
+    a1.addSource(b.getSource("s1").getSource("s2"));
+    MultiTag m1 = b.getMultiTag("m1");
+    m1.addReference(b.getDataArray("a1"));
+    m1.createFeature(b.getDataArray("a2"), LinkType::Untagged);
+    Group g1 = b.getGroup("g1");
+    g1.addTag(b.getTag("t2"));
+    b.getSource("s1").createSource("s2b", "u");
+    f.getSection("x1").createSection("x2b", "u");
+    DataFrame f2 = b.createDataFrame("f2", "u", std::vector<Column>{{"k", "", DataType::Int32}});
+    g1.addDataFrame(f2);
+    MultiTag m2 = b.createMultiTag("m2", "u", b.getDataArray("a4"));
+    g1.addMultiTag(m2);
+}
+
 } // namespace ops
